@@ -6,6 +6,7 @@ pub mod pragen;
 pub mod replay;
 pub mod rng;
 pub mod run;
+pub mod solvecheck;
 pub mod solverun;
 pub mod timeutil;
 
